@@ -62,6 +62,22 @@ def handle (op : String) (args res : List String) : Option Verdict :=
       if closeF mx x sc 4e-16 && closeF my y sc 4e-16 && closeF mz z sc 4e-16 then .ok
       else .bad s!"LocalCartesian::Forward: impl=({shw x},{shw y},{shw z}) model=({shw mx},{shw my},{shw mz})"
     | _, _ => .bad "parse"
+  | "locorigin" => some <|
+    -- the local frame: origin = forward image of (lat0, lon0, h0), r = the rotation matrix AT (lat0, lon0) (theorems `local_origin`,
+    -- `local_isometry` are about exactly this pair)
+    match args.mapM pfl, res.mapM pfl with
+    | some [a, f, _lat0, _lon0, h0, sphi, cphi, slam, clam], some (x0 :: y0 :: z0 :: r) =>
+      let E : Ell Float := ⟨a, f⟩
+      let (mx, my, mz) := forward E sphi cphi slam clam h0
+      let sc := Float.abs mx + Float.abs my + Float.abs mz + a
+      let mM := rotation sphi cphi slam clam
+      if !(closeF mx x0 sc 1e-15 && closeF my y0 sc 1e-15 && closeF mz z0 sc 1e-15) then
+        .bad s!"LocalCartesian origin: impl=({shw x0},{shw y0},{shw z0}) model=({shw mx},{shw my},{shw mz})"
+      else if r.length != 9 then .bad "parse"
+      else if !((List.range 9).all fun i => closeF (el mM i) (r.getD i 0) 1 4e-16) then
+        .bad s!"LocalCartesian frame is not the east/north/up frame at (lat0, lon0): impl={r} model={mM}"
+      else .ok
+    | _, _ => .bad "parse"
   | "geoprops" => some (.skip "closure, least-|h|, orthonormality and isometry are judged by the harness on the implementation")
   | _ => none
 
